@@ -855,7 +855,7 @@ func TestCheck(t *testing.T) {
 	full := c.Thorough() || c.ReplayFile != ""
 	sp := buildSpace(full)
 	c.SetRule("E1: full product over registration(method x grant shape x app type x keys on file) x presentation x operation x router, " +
-		"crossed with every combination of at most k deviations of the six provider flags / storage capabilities from all-on; " +
+		"crossed with at most one (quick) / all (thorough) of the six provider flags / storage capabilities switched off; quick adds all 64 flag combinations x method x presentation x operation x router at the all-grants web registration; " +
 		"distinct = distinct (oracle clause, observed outcome class)")
 	c.Assume(
 		"refstore is the storage (trusted): secret authentication fails for clients without a secret; service users are the clients of the client_credentials grant",
@@ -864,18 +864,27 @@ func TestCheck(t *testing.T) {
 		"Either (decided while building, demanding less): public client sending a superfluous secret; valid assertion with wrong/missing client_assertion_type; private_key_jwt disabled in the provider; jwt-bearer grant by a keyed client not registered for it (issuer is identified by the storage key table); credential quality at /device_authorization for a known client",
 		"panics / double responses are outcome classes of C09 and satisfy a refusal obligation when nothing was issued",
 	)
-	k := engine.Pick(c, 2, 6)
+	// quick: (full registration x presentation x operation x router) x at most ONE flag off,
+	// plus (method x presentation x operation x router at the all-grants web registration) x
+	// ALL 64 flag combinations. thorough: the full product of all thirteen dimensions.
+	main := []string{"method", "grants", "app", "keys", "pres", "op", "router"}
+	flags := []string{"post", "jwt", "refresh", "capcc", "capte", "capdev"}
+	groups := [][]string{main, append([]string{"method", "pres", "op", "router"}, flags...)}
+	ks := []int{1, 0}
+	if c.Thorough() {
+		groups, ks = [][]string{main}, []int{len(flags)}
+	}
 	c.RunE1(engine.E1{
 		Part:   "client-auth-and-grant",
 		Space:  sp,
-		Groups: [][]string{{"method", "grants", "app", "keys", "pres", "op", "router"}},
-		K:      k,
+		Groups: groups,
+		Ks:     ks,
 		NewWorker: func(int) func(engine.Vec) engine.Result {
 			w := &worker{t: t, sp: sp, rigs: map[int]*rig.Rig{}}
 			return w.run
 		},
 	})
-	c.Extra("flag_deviation_bound_k", k)
+	c.Extra("flag_deviation_bounds", ks)
 	c.Finish()
 }
 
